@@ -242,6 +242,8 @@ where
     /// Write actual values in the buffer-slot we got during `alloc()`
     #[inline]
     pub fn set_value_at(&mut self, buffer: &mut Buffer, val: T, index: usize) -> WriteResult<()> {
+        #[cfg(feature = "verif-hooks")]
+        crate::verif_hooks::array_index(index, self.array_size);
         Ok(buffer
             .write_at(self.position as usize + size!(T) * index, val)
             .map(|_sz| ())?)
